@@ -8,7 +8,7 @@ LEVEL = 'other'
 EXPLANATION = ('Static rules on GroupByObserver: G1 in next() the group of a new key is announced downstream (inside the once-only '
                'or_insert_with closure) before the item is forwarded; on every path the item is forwarded exactly once, to the map entry looked '
                'up under the key computed from this very item, and the announced group wraps a clone of the subject that is inserted; G2 '
-               'error()/complete() deliver the terminal to every drained group and then, once, to the outer observer; G4 next() never removes a group from the key map (one group per key for the life of the source); G3 GroupByOp is '
+               'error()/complete() deliver the terminal to every drained group and then, once, to the outer observer; G5 the key map is indexed by the key value itself (key type parameter, entry(key)); G4 next() never removes a group from the key map (one group per key for the life of the source); G3 GroupByOp is '
                'instantiated for Subject and SubjectThreads only (handle types). Does not decide first-appearance order, hash routing or '
                'round-trip equality.')
 ASSUMPTIONS = ['HashMap::entry/or_insert_with behave as documented']
@@ -76,6 +76,22 @@ def check(cx):
                     ok = False
                     msg = 'the announced group does not wrap (a clone of) the subject that is inserted into the map'
         res.append(Finding(ID, 'G1', label, ok, msg, fn['span'], wit))
+        # G5: groups are indexed by the key itself: the map's key type is the key type parameter and the entry looked up is the
+        # (clone of the) value the key function returned — not something derived from it such as a hash or a prefix
+        mt = [F.ty(t) for f, t in roles.adt_fields(cx, tag) if f == MAP][0]
+        kt = F.ty(mt['a'][0]) if mt.get('a') else {'k': '?', 's': '?'}
+        direct = True
+        for n in [x for x in g.nodes if x['kind'] == 'call' and x['name'].endswith('HashMap::entry')]:
+            ka = strip(n['args'][1]) if len(n['args']) > 1 else ('unknown', '')
+            while ka[0] == 'call' and ka[1] == 'std::clone::Clone::clone' and ka[2]:
+                ka = strip(ka[2][0])
+            if not (ka[0] == 'call' and ka[1] in ('std::ops::FnMut::call_mut', 'std::ops::Fn::call', 'std::ops::FnOnce::call_once')):
+                direct = False
+        okk = kt['k'] == 'param' and direct
+        res.append(Finding(ID, 'G5', label, okk,
+                           'groups are indexed by the key value itself' if okk else
+                           'groups are indexed by %s rather than by the key returned by the key function: distinct keys can share a group' % (kt['s'] if kt['k'] != 'param' else 'a value derived from the key'),
+                           fn['span']))
         # G4: a group lives as long as the source: next() never removes entries from the map
         removers = [x for x in g.nodes if x['kind'] == 'call' and x['args'] and x['name'].rsplit('::', 1)[-1] in
                     ('retain', 'remove', 'remove_entry', 'clear', 'drain', 'extract_if', 'take') and recv_class(x['args'][0]) == 'self.' + MAP]
